@@ -20,3 +20,12 @@ Theorem C08_cyk : forall (X : Type) (E : EqDec X) (G : cfg X) (w : list N),
   is_normal_form G = true -> w <> nil -> (cyk G w = true <-> LangG G w).
 Proof. intros X E G w Hn. exact (cyk_spec G Hn w). Qed.
 Print Assumptions C08_cyk.
+
+(* the mirrored CFG.contains (generate_epsilon for the empty word; to_normal_form + CYK otherwise) answers derivability, for
+   every grammar and every word, whenever the model's normal-form recursion finishes within its fuel (the correspondence
+   leg checks that it does on every generated grammar, where pyformlang itself would otherwise recurse for ever) *)
+From PFL Require Import Proofs.CfgNormalForm.
+Theorem C08_contains : forall (Vr : Type) (E : EqDec Vr) (fuel : nat) (G : cfg Vr) (w : list N) (b : bool),
+  contains fuel G w = Some b -> (b = true <-> LangG G w).
+Proof. exact (@contains_spec). Qed.
+Print Assumptions C08_contains.
